@@ -61,10 +61,10 @@ REGISTRY = {
     'C09': dict(mods=['C09'], thms=['C09_inner_errors', 'C09_only_unmarshaling'],
                 tie=['tieA_frame_except_sites', 'tieA_decode_except_sites'], lanes=['dec_prim', 'dec_value:malformed', 'frame/frame.unmarshal.malformed'], oracles=['c09']),
     'C10': dict(mods=['C10', 'C10Props'], thms=['C10_value', 'C10_accepts_only_encodable', 'C10_field_table_domain', 'C10_args', 'C10_props'],
-                tie=['tieA_guards', 'tieA_ladder', 'tieA_struct_formats', 'tieA_struct_uses', 'tieA_codec_calls'],
+                tie=['tieA_guards', 'tieA_guard_packers', 'tieA_ladder', 'tieA_struct_formats', 'tieA_struct_uses', 'tieA_codec_calls'],
                 lanes=['enc_prim', 'enc_tint', 'enc_value:any', 'args', 'props/props.marshal,props.unmarshal'], oracles=['c10']),
     'C11': dict(mods=['C11', 'C11Nested'], thms=['C11_first_fit', 'C11_legacy', 'C11_domain', 'C11_fixed_width_guards', 'C11_fixed_width_accept', 'C11_nested_same_chain', 'C11_toggle', 'C11_legacy_tags_nested', 'C11_full_tags_nested'],
-                tie=['tieA_ladder', 'tieA_guards', 'tieA_toggle'], lanes=['enc_tint', 'enc_prim/enc.prim.short_int,enc.prim.short_uint,enc.prim.long_int,enc.prim.long_uint,enc.prim.long_long_int', 'api_toggle'], oracles=['c11']),
+                tie=['tieA_ladder', 'tieA_guards', 'tieA_guard_packers', 'tieA_toggle'], lanes=['enc_tint', 'enc_prim/enc.prim.short_int,enc.prim.short_uint,enc.prim.long_int,enc.prim.long_uint,enc.prim.long_long_int', 'api_toggle'], oracles=['c11']),
     'C12': dict(mods=['C12'], thms=['C12_perm_invariant', 'C12_table_perm_invariant', 'C12_sorted', 'C12_sorted_perm', 'C12_order_total', 'C12_order_antisymm'],
                 tie=['tieA_no_shared_mutation'], lanes=['enc_value:ok', 'cpython_sort'], oracles=['c12']),
     'C13': dict(mods=['C13', 'C13Ctor'], thms=['C13_constructor_iff', 'C13_unconstrained_accepts', 'C13_rules_eq_spec', 'C13_constrained_classes_exist', 'C13_ctor_validates', 'C13_char_class', 'C13_char_count', 'C13_validate_iff', 'C13_marshal_revalidates', 'C13_decode_never_validates'],
@@ -132,7 +132,7 @@ def tie_module(name):
 # (like an edited function, DESIGN 14.6) and is reported as ADVISORY.
 SHAPE_TIES = {'tieA_struct_uses', 'tieA_envelope_struct_uses', 'tieA_protocol_header_struct_uses',
               'tieA_content_header_struct_uses', 'tieA_frame_except_sites', 'tieA_decode_except_sites',
-              'tieA_codec_calls', 'tieA_time_calls', 'tieA_frame_constants'}
+              'tieA_codec_calls', 'tieA_time_calls', 'tieA_frame_constants', 'tieA_guard_packers'}
 SKIP_TIES = set()      # shape obligations that did not build in this run
 
 
